@@ -97,18 +97,20 @@ type fields struct {
 
 // soloHist is one history against one solo machine client.
 type soloHist struct {
-	e        *env
-	cdc      codec.BinaryCodec
-	ck       *clientkeeper.Keeper
-	ctx      sdk.Context
-	clientID string
-	keys     []*signer
-	cur      *signer // key the harness believes is registered
-	sigIDs   map[string]string
-	sigTab   map[string][2]string // id -> (signer Any hex or "", signed message hex)
-	old      []oldSig
-	ops      []any
-	outs     []any
+	e         *env
+	cdc       codec.BinaryCodec
+	ck        *clientkeeper.Keeper
+	ctx       sdk.Context
+	clientID  string
+	keys      []*signer
+	cur       *signer // key the harness believes is registered
+	sigIDs    map[string]string
+	sigTab    map[string][2]string // id -> (signer Any hex or "", signed message hex)
+	sigBad    []string             // ids of signature bytes on which UnmarshalSignatureData panics
+	old       []oldSig
+	lastPanic string
+	ops       []any
+	outs      []any
 }
 
 type oldSig struct {
@@ -127,7 +129,28 @@ func (h *soloHist) sigID(sig []byte) string {
 	}
 	id := fmt.Sprintf("s%d", len(h.sigIDs))
 	h.sigIDs[k] = id
+	// input characterisation: does the SDK's SignatureDataFromProto panic on these bytes (no Sum set)?
+	if p, _ := hx.Catch(func() { _, _ = solomachine.UnmarshalSignatureData(h.cdc, sig) }); p {
+		h.sigBad = append(h.sigBad, id)
+	}
 	return id
+}
+
+// sumlessSigData returns signature-data bytes that unmarshal into a SignatureDescriptor_Data without a Sum.
+func sumlessSigData(r *hx.Rng, cdc codec.BinaryCodec) []byte {
+	switch r.Intn(3) {
+	case 0:
+		return []byte{0x18, byte(1 + r.Intn(100))} // unknown field 3 only
+	case 1:
+		bz, err := cdc.Marshal(&signing.SignatureDescriptor_Data{Sum: &signing.SignatureDescriptor_Data_Multi_{
+			Multi: &signing.SignatureDescriptor_Data_Multi{Signatures: []*signing.SignatureDescriptor_Data{{}}}}})
+		if err != nil {
+			panic(err)
+		}
+		return bz
+	default:
+		return []byte{0x22, 0x01, byte(r.Intn(256))} // unknown length-delimited field 4
+	}
 }
 
 func (h *soloHist) marshalSignBytes(f fields) []byte {
@@ -165,7 +188,10 @@ func (h *soloHist) observe(res string) map[string]any {
 	if err != nil {
 		panic(err)
 	}
-	return map[string]any{"r": res, "seq": hx.U(cs.Sequence), "ts": hx.U(cs.ConsensusState.Timestamp), "frozen": cs.IsFrozen,
+	if res == "panic" {
+		defer func() { h.lastPanic = "" }()
+	}
+	return map[string]any{"r": res, "panic": h.lastPanic, "seq": hx.U(cs.Sequence), "ts": hx.U(cs.ConsensusState.Timestamp), "frozen": cs.IsFrozen,
 		"div": hx.HS(cs.ConsensusState.Diversifier), "pk": hx.H(pk),
 		"status": h.ck.GetClientStatus(h.ctx, h.clientID).String()}
 }
@@ -174,12 +200,13 @@ func (h *soloHist) observe(res string) map[string]any {
 func (h *soloHist) run(f func(ctx sdk.Context) error) string {
 	res := "err"
 	cctx, write := h.ctx.CacheContext()
-	p, _ := hx.Catch(func() {
+	p, msg := hx.Catch(func() {
 		if err := f(cctx); err == nil {
 			res = "ok"
 		}
 	})
 	if p {
+		h.lastPanic = msg
 		return "panic"
 	}
 	if res == "ok" {
@@ -290,7 +317,7 @@ func (h *soloHist) history(mode string) {
 	h.clientID = h.createClient(seq0, ts0, div0, h.cur)
 	init := stateJSON(h.state())
 
-	nops := 5 + r.Intn(8)
+	nops := 4 + r.Intn(6)
 	for i := 0; i < nops; i++ {
 		cs := h.state()
 		seq, ts, div := cs.Sequence, cs.ConsensusState.Timestamp, cs.ConsensusState.Diversifier
@@ -309,7 +336,10 @@ func (h *soloHist) history(mode string) {
 			h.opVerify(seq, ts, div, mode, special, true)
 		}
 	}
-	in := map[string]any{"init": init, "ops": h.ops, "sigs": h.sigTab}
+	if h.sigBad == nil {
+		h.sigBad = []string{}
+	}
+	in := map[string]any{"init": init, "ops": h.ops, "sigs": h.sigTab, "malformed": h.sigBad}
 	h.e.o.Emit("solo_history", in, h.outs, mode)
 }
 
@@ -374,7 +404,11 @@ func (h *soloHist) opUpdate(seq, ts uint64, div, mode string, special bool) {
 				note = "corrupt-signature"
 			case 1:
 				hdr.Signature = r.Bytes(1 + r.Intn(70))
-				h.submitHeader(hdr, "garbage-signature")
+				note := "garbage-signature"
+				if r.Chance(1, 3) {
+					hdr.Signature, note = sumlessSigData(r, h.cdc), "sumless-signature-data"
+				}
+				h.submitHeader(hdr, note)
 				return
 			case 2:
 				hdr.Signature = nil
@@ -449,8 +483,7 @@ func (h *soloHist) submitHeader(hdr *solomachine.Header, note string) string {
 	return res
 }
 
-var soloKeys = []string{"clients/07-tendermint-0/clientState", "connections/connection-0", "commitments/ports/transfer/channels/channel-0/sequences/1",
-	"receipts/ports/transfer/channels/channel-0/sequences/1", "k", ""}
+var soloKeys = []string{"clients/07-tendermint-0/clientState", "connections/connection-0", "commitments/p/c/1", "receipts/p/c/1", "k", ""}
 
 // opVerify calls keeper.VerifyMembership / VerifyNonMembership.
 func (h *soloHist) opVerify(seq, ts uint64, div, mode string, special, nonmember bool) {
@@ -507,8 +540,12 @@ func (h *soloHist) opVerify(seq, ts uint64, div, mode string, special, nonmember
 				corrupt = true
 				note = "corrupt-signature"
 			case 1:
-				bz, _ := h.cdc.Marshal(&solomachine.TimestampedSignatureData{SignatureData: r.Bytes(1 + r.Intn(70)), Timestamp: pts})
-				proof, haveProof, note = bz, true, "garbage-signature"
+				sd, nt := r.Bytes(1+r.Intn(70)), "garbage-signature"
+				if r.Chance(1, 3) {
+					sd, nt = sumlessSigData(r, h.cdc), "sumless-signature-data"
+				}
+				bz, _ := h.cdc.Marshal(&solomachine.TimestampedSignatureData{SignatureData: sd, Timestamp: pts})
+				proof, haveProof, note = bz, true, nt
 			case 2:
 				bz, _ := h.cdc.Marshal(&solomachine.TimestampedSignatureData{SignatureData: nil, Timestamp: pts})
 				proof, haveProof, note = bz, true, "empty-signature-data"
@@ -673,6 +710,10 @@ func (h *soloHist) opMisbehaviour(seq, ts uint64, div string, invalid bool) {
 	}
 	s1 := &solomachine.SignatureAndData{Signature: h.signFields(f1, k1, c1), Path: p1, Data: d1, Timestamp: t1}
 	s2 := &solomachine.SignatureAndData{Signature: h.signFields(f2, k2, c2), Path: p2, Data: d2, Timestamp: t2}
+	if invalid && note == "second-signature-corrupt" && r.Bool() {
+		s2.Signature = sumlessSigData(r, h.cdc)
+		note = "second-signature-sumless"
+	}
 	switch note {
 	case "identical-signatures":
 		s2 = &solomachine.SignatureAndData{Signature: s1.Signature, Path: p2, Data: d2, Timestamp: t2}
@@ -756,14 +797,14 @@ func famSolo(e *env) {
 	ck := e.chain.App.GetIBCKeeper().ClientKeeper
 
 	// the protobuf encoding the signatures are made over
-	n := hx.N(150, 5000)
+	n := hx.N(200, 5000)
 	k := newSigner(r, 1)
 	for i := 0; i < n; i++ {
-		f := fields{seq: r.U64B(), ts: r.U64B(), div: r.Pick([]string{"", "d", "diversifier", "\x08\x10"}), path: r.Bytes(r.Intn(40)), data: r.Bytes(r.Intn(200))}
+		f := fields{seq: r.U64B(), ts: r.U64B(), div: r.Pick([]string{"", "d", "diversifier", "\x08\x10"}), path: r.Bytes(r.Intn(24)), data: r.Bytes(r.Intn(40))}
 		if r.Chance(1, 5) {
 			f.path = nil
 		}
-		if r.Chance(1, 5) {
+		if r.Chance(1, 12) {
 			f.data = make([]byte, 120+r.Intn(20)) // two-byte length varint, zero bytes
 		}
 		bz, err := cdc.Marshal(&solomachine.SignBytes{Sequence: f.seq, Timestamp: f.ts, Diversifier: f.div, Path: f.path, Data: f.data})
@@ -792,7 +833,7 @@ func famSolo(e *env) {
 	}
 	_ = k
 
-	m := hx.N(240, 6000)
+	m := hx.N(192, 6000)
 	for i := 0; i < m; i++ {
 		ctx, _ := e.ctx.CacheContext()
 		h := &soloHist{e: e, cdc: cdc, ck: ck, ctx: ctx, sigIDs: map[string]string{}, sigTab: map[string][2]string{}}
